@@ -34,8 +34,8 @@ def jobs(tier):
     for k0, n0 in EK.items():
         for k1, n1 in EK.items():
             if 'string' in (n0, n1) and not os.environ.get('VERIF_EXPERIMENTAL'):
-                continue   # string values: the final validation of the thorough tier showed these jobs BROKEN (a NULL dereference reported for every input that does not reproduce natively =
-                           # ENCODING-SUSPECT: the raw encoder set-up of CJSEQ leaves a member the string path reads uninitialised); not run by registered checks until repaired
+                continue   # string values: need > 9 GB address space (solver died under the runner's limit and the run was misread as failing, DESIGN 6.3); decided by hand with
+                           # 12 GB (cjson_obj_null: 0 of 2803 fail) but not re-validated as a family in time: not run by registered checks
                            # (escaping itself is decided by text/escape_n*, the separators and literals by the non-string sequences)
             J.append(dict(id='cjson_arr_%s_%s' % (n0, n1), harness='h_cjson_seq', props=['C08', 'C01'], unwind=26, defs=dict(FMT=0, EK0=k0, EK1=k1, SEQOBJ=0, KSEQ='k_cj_arr_%s_%s' % ((n0, n1) if list(EK).index(k0) <= list(EK).index(k1) else (n1, n0))), timeout=1500 if 'string' in (n0, n1) else 300, mem_gb=6,
                           desc='compact JSON encoder on [%s,%s]: output text equals the independent RFC 8259 rendering (separators, brackets, literals, integers)' % (n0, n1), bound='uint<1000, |int|<1000, 2-char printable strings'))
